@@ -45,23 +45,23 @@ const char *mc_rule = "history BFS with dedupe on (registrations per kind, name 
 enum Op {
 	B0, B1, B8,                                   // mpt_type_basic_add(0|1|8)
 	G_OK, G_SZ0, G_NULL,                          // mpt_type_add(traits | traits with size 0 | NULL)
-	I_NULL, I_SHORT, I_BETA, I_ALPHA, I_ALPHABET, I_LOGGER,            // mpt_type_interface_add(name)
-	M_NULL, M_SHORT, M_BETA, M_ALPHA, M_ALPHABET, M_METATYPE, M_LOGGER, // mpt_type_metatype_add(name)
+	I_NULL, I_SHORT, I_BETA, I_ALPHA, I_ALPHABET, I_LOGGER, I_ITER, I_META,            // mpt_type_interface_add(name)
+	M_NULL, M_SHORT, M_BETA, M_ALPHA, M_ALPHABET, M_METATYPE, M_LOGGER, M_ITER, M_META, // mpt_type_metatype_add(name)
 	FILL_B, FILL_G30, FILL_GCAP, FILL_I, FILL_M30, FILL_MCAP,          // macro steps
 	NOPS
 };
 static const char *opname_[] = {
 	"basic_add(0)", "basic_add(1)", "basic_add(8)",
 	"type_add(traits)", "type_add(size 0)", "type_add(NULL)",
-	"interface_add(NULL)", "interface_add(\"abc\")", "interface_add(\"beta\")", "interface_add(\"alpha\")", "interface_add(\"alphabet\")", "interface_add(\"logger\")",
-	"metatype_add(NULL)", "metatype_add(\"abc\")", "metatype_add(\"beta\")", "metatype_add(\"alpha\")", "metatype_add(\"alphabet\")", "metatype_add(\"metatype\")", "metatype_add(\"logger\")",
+	"interface_add(NULL)", "interface_add(\"abc\")", "interface_add(\"beta\")", "interface_add(\"alpha\")", "interface_add(\"alphabet\")", "interface_add(\"logger\")", "interface_add(\"iter\")", "interface_add(\"meta\")",
+	"metatype_add(NULL)", "metatype_add(\"abc\")", "metatype_add(\"beta\")", "metatype_add(\"alpha\")", "metatype_add(\"alphabet\")", "metatype_add(\"metatype\")", "metatype_add(\"logger\")", "metatype_add(\"iter\")", "metatype_add(\"meta\")",
 	"fill(basic, capacity-1)", "fill(generic, next chunk end-1)", "fill(generic, capacity-1)", "fill(interface, capacity-1)", "fill(metatype, next chunk end-1)", "fill(metatype, capacity-1)"
 };
 static const char *opfunc(int op)
 {
 	if (op <= B8 || op == FILL_B) return "mpt_type_basic_add";
 	if (op <= G_NULL || op == FILL_G30 || op == FILL_GCAP) return "mpt_type_add";
-	if (op <= I_LOGGER || op == FILL_I) return "mpt_type_interface_add";
+	if (op <= I_META || op == FILL_I) return "mpt_type_interface_add";
 	return "mpt_type_metatype_add";
 }
 static const char *opargname(int op)
@@ -74,6 +74,8 @@ static const char *opargname(int op)
 	case I_ALPHABET: case M_ALPHABET: return "alphabet";
 	case I_LOGGER: case M_LOGGER: return "logger";
 	case M_METATYPE: return "metatype";
+	case I_ITER: case M_ITER: return "iter";
+	case I_META: case M_META: return "meta";
 	}
 	return 0;
 }
@@ -165,8 +167,8 @@ struct Child {
 		for (auto &i : ifs) { builtin(i.id, sizeof(void *), "builtin-interface", i.name, KIface); ifaces.push_back(i.id); iname[i.name] = i.id; }
 		builtin(mpt::TypeMetaPtr, sizeof(void *), "builtin-metatype", "metatype", KMeta); metas.push_back(mpt::TypeMetaPtr); mname["metatype"] = mpt::TypeMetaPtr;
 	}
-	// name lookup model: metatype entries take precedence over interfaces (doc of mpt_named_traits);
-	// names are unique inside a kind (duplicates are refused)
+	// name lookup model for names that are not registered as given (prefixes, over-long, unknown): exact match in either
+	// kind; registered names are unique over both kinds (a second registration of a resolving name is a violation)
 	std::map<std::string, uintptr_t> iname, mname;
 	uintptr_t model_find(const std::string &name) const
 	{
@@ -268,10 +270,14 @@ struct Child {
 		int n = kind == KIface ? nI : nM;
 		std::string what = fmt("%s(%s%s%s) [%d registered]", fn, name ? "\"" : "", name ? name : "NULL", name ? "\"" : "", n);
 		std::string st = fillcls(kind);
+		// the registry has ONE name space for lookups (mpt_named_traits searches metatypes, then interfaces, after
+		// rewriting the short names log/iter/out/meta): a name that already resolves - same kind, other kind or
+		// built-in short name - is a duplicate, because one of the two entries could never be found by its name
 		bool tooshort = name && strlen(name) < 4;
 		bool dup = name && has_name(kind, name);
 		bool shadow = name && !dup && has_name(kind == KIface ? KMeta : KIface, name);
-		std::string argc = !name ? "unnamed" : tooshort ? "short-name" : dup ? "dup-name" : shadow ? "name-of-other-kind" : "new-name";
+		bool alias = name && !tooshort && !dup && !shadow && (!strcmp(name, "log") || !strcmp(name, "iter") || !strcmp(name, "out") || !strcmp(name, "meta"));
+		std::string argc = !name ? "unnamed" : tooshort ? "short-name" : dup ? "dup-name" : shadow ? "name-of-other-kind" : alias ? "builtin-short-name" : "new-name";
 		char *own = name ? strdup(name) : 0;     // the registry must keep its own copy
 		errno = 0;
 		const mpt::named_traits *nt = kind == KIface ? LIB(mpt::mpt_type_interface_add(own)) : LIB(mpt::mpt_type_metatype_add(own));
@@ -279,16 +285,18 @@ struct Child {
 		if (!nt) {
 			if (tooshort) { count(kind == KIface ? "refused:interface,short-name" : "refused:metatype,short-name"); lastflags |= F_NAMEREF; }
 			else if (dup) { count(kind == KIface ? "refused:interface,dup-name" : "refused:metatype,dup-name"); lastflags |= F_NAMEREF; }
+			else if (shadow) { count(kind == KIface ? "refused:interface,name-of-other-kind" : "refused:metatype,name-of-other-kind"); lastflags |= F_NAMEREF; }
+			else if (alias) { count(kind == KIface ? "refused:interface,builtin-short-name" : "refused:metatype,builtin-short-name"); lastflags |= F_NAMEREF; }
 			else if (st == "range-exhausted") { count(kind == KIface ? "refused:interface,range-exhausted" : "refused:metatype,range-exhausted"); lastflags |= F_EXHAUST; }
 			else {
-				// neither too short, nor a duplicate inside its kind, nor an exhausted range: must be accepted
-				fail(std::string(fn) + "|" + st + "|" + argc + "|refused", what + fmt(": refused (errno %d) although the name is not registered as %s and the range has room", errno, kindname[kind]));
+				// neither too short, nor a name that already resolves, nor an exhausted range: must be accepted
+				fail(std::string(fn) + "|" + st + "|" + argc + "|refused", what + fmt(": refused (errno %d) although the name does not resolve yet and the %s range has room", errno, kindname[kind]));
 				return false;
 			}
 			note(what + " -> refused");
 			return true;
 		}
-		if (tooshort || dup) {
+		if (tooshort || dup || shadow || alias) {
 			fail(std::string(fn) + "|" + st + "|" + argc + "|accepted", what + fmt(": registered as id 0x%lx", (long) nt->type));
 			return false;
 		}
@@ -308,7 +316,6 @@ struct Child {
 		}
 		tab[id] = e;
 		if (kind == KIface) { ifaces.push_back(id); ++nI; if (name) iname[name] = id; } else { metas.push_back(id); ++nM; if (name) mname[name] = id; }
-		if (shadow) count("same_name_in_both_kinds(accepted, documented precedence, not flagged)");
 		if (kind == KMeta && (id - MT_BASE) % CHUNK == 0) { lastflags |= F_CHUNK; count("accepted:metatype,first-of-chunk"); }
 		if (st == "last-id") { lastflags |= F_LAST; count(kind == KIface ? "accepted:interface,last-id" : "accepted:metatype,last-id"); }
 		if ((uintptr_t) id == (kind == KIface ? IF_MAX : MT_MAX)) count(kind == KIface ? "id_reached:interface,range-max" : "id_reached:metatype,range-max");
@@ -353,8 +360,8 @@ struct Child {
 		case G_OK: ok = add_generic(0); break;
 		case G_SZ0: ok = add_generic(1); break;
 		case G_NULL: ok = add_generic(2); break;
-		case I_NULL: case I_SHORT: case I_BETA: case I_ALPHA: case I_ALPHABET: case I_LOGGER: ok = add_named(KIface, opargname(op)); break;
-		case M_NULL: case M_SHORT: case M_BETA: case M_ALPHA: case M_ALPHABET: case M_METATYPE: case M_LOGGER: ok = add_named(KMeta, opargname(op)); break;
+		case I_NULL: case I_SHORT: case I_BETA: case I_ALPHA: case I_ALPHABET: case I_LOGGER: case I_ITER: case I_META: ok = add_named(KIface, opargname(op)); break;
+		case M_NULL: case M_SHORT: case M_BETA: case M_ALPHA: case M_ALPHABET: case M_METATYPE: case M_LOGGER: case M_ITER: case M_META: ok = add_named(KMeta, opargname(op)); break;
 		case FILL_B: ok = fill(KBasic, (int) (DY_MAX - DY_BASE)); break;
 		case FILL_G30: ok = fill(KGeneric, nG + (CHUNK - 1 - nG % CHUNK ? CHUNK - 1 - nG % CHUNK : CHUNK)); break;
 		case FILL_GCAP: ok = fill(KGeneric, (int) (GN_MAX - GN_BASE)); break;
@@ -480,8 +487,7 @@ struct Child {
 		for (size_t k = 0; k < named.size() && !bad(); ++k) {
 			const Entry &e = tab[named[k]];
 			if (!e.named) continue;
-			uintptr_t want = model_find(e.name);
-			if (want != e.id) count("lookups_shadowed_by_metatype(not flagged)");
+			uintptr_t want = e.id;   // "looking a registered name up returns its identifier": names are unique over both kinds
 			bool fillname = e.name.compare(0, 5, "fill.") == 0;
 			std::string cls = e.cls;
 			std::string longer = e.name + "~tail";
@@ -722,6 +728,7 @@ static const char *required_keys[] = {
 	"accepted:basic,last-id", "accepted:generic,last-id", "accepted:interface,last-id", "accepted:metatype,last-id",
 	"accepted:generic,first-of-chunk", "accepted:metatype,first-of-chunk",
 	"refused:interface,short-name", "refused:metatype,short-name", "refused:interface,dup-name", "refused:metatype,dup-name",
+	"refused:interface,name-of-other-kind", "refused:metatype,name-of-other-kind", "refused:interface,builtin-short-name", "refused:metatype,builtin-short-name",
 	"refused:generic,invalid-traits", "lookups_by_id", "lookups_by_name", "lookups_by_alias_typeid", "format_code_roundtrips", "nontrivial" };
 
 // Run all histories of one BFS level, each in its own forked child, up to P children at a time.
